@@ -53,6 +53,7 @@ def convert(task):
     except Exception as e:
         return {"status": "exc", "exc": type(e).__name__, "where": "construct:" + frame_sig(e.__traceback__), "msg": str(e)[:200]}
     signal.setitimer(signal.ITIMER_REAL, limit)
+    mem = False
     try:
         r = md(doc)
         signal.setitimer(signal.ITIMER_REAL, 0)
@@ -62,6 +63,9 @@ def convert(task):
         return {"status": "ok", "cpu": time.process_time() - t0, "len": len(r)}
     except Timeout:
         return {"status": "timeout", "cpu": time.process_time() - t0}
+    except MemoryError:
+        # (nothing may be allocated here: the traceback still holds the frames with the runaway data)
+        mem = True
     except RecursionError as e:
         signal.setitimer(signal.ITIMER_REAL, 0)
         # the cycle of handler names
@@ -74,6 +78,10 @@ def convert(task):
         return {"status": "exc", "exc": type(e).__name__, "where": frame_sig(e.__traceback__), "msg": str(e)[:200]}
     finally:
         signal.setitimer(signal.ITIMER_REAL, 0)
+    if mem:
+        import gc
+        gc.collect()
+        return {"status": "exc", "exc": "MemoryError", "where": "address-space limit of the guarded worker (3 GB)", "msg": "conversion allocates without bound"}
 
 
 def count_convert(task):
@@ -120,14 +128,15 @@ def run_all(tasks, workers=14, fn=None):
                 for i, r in zip(pending, ex.map(fn or convert, [tasks[i] for i in pending], chunksize=8)):
                     results[i] = r
             pending = []
-        except BrokenProcessPool:
+        except Exception:
+            # (BrokenProcessPool, or an exception that escaped a worker, e.g. MemoryError while reporting)
             # find the culprit(s) one by one, each in its own single-task pool
             rest = [i for i in pending if results[i] is None]
             for i in rest:
                 try:
                     with ProcessPoolExecutor(max_workers=1) as ex:
                         results[i] = list(ex.map(fn or convert, [tasks[i]]))[0]
-                except BrokenProcessPool:
+                except Exception:
                     results[i] = {"status": "crash"}
             pending = []
     return results
